@@ -249,3 +249,51 @@ def reeval(chk, prog, other, pred, as_rule, floor_name=None, floor=0, _cache={})
     if floor_name:
         chk.floor(floor_name, len(r), floor)
     return r
+
+
+# which property's statement covers the interface contract of the functions defined in a file: a parameter swapped between declaration and
+# definition is reported once, under that property (reporting it under every property anchored in the file would raise alarms for
+# properties the swapped arguments cannot affect)
+INTERFACE_OWNER = {
+    "IO/HDF5File": "C10", "PS/PhaseSpaceFactory": "C11", "PS/ElectricField": "C06", "PS/PhaseSpace": "C09", "PS/Ruler": "C09",
+    "SM/SourceMap": "C01", "SM/KickMap": "C08", "SM/DriftMap": "C03", "SM/WakePotentialMap": "C05", "SM/WakeKickMap": "C05",
+    "SM/RFKickMap": "C19", "SM/DynamicRFKickMap": "C19", "SM/FokkerPlanckMap": "C04", "SM/Identity": "C01", "SM/RotationMap": "C02",
+    "Z/Impedance": "C16", "Z/ImpedanceFactory": "C16", "Z/FreeSpaceCSR": "C16", "Z/ParallelPlatesCSR": "C16", "Z/ResistiveWall": "C16",
+    "Z/CollimatorImpedance": "C16", "Z/ConstImpedance": "C16", "IO/ProgramOptions": "C20", "IO/Display": "C14", "FFTWWrapper": "C18",
+}
+
+
+def anchor_files(pid):
+    """the files whose interfaces are judged under property pid (see INTERFACE_OWNER)"""
+    out = set()
+    for stem, owner in INTERFACE_OWNER.items():
+        if owner == pid:
+            out.add("src/%s.cpp" % stem)
+            out.add("inc/%s.hpp" % stem)
+    return out
+
+
+def decl_def_params(chk, prog, rule, files):
+    """Interface rule: callers pass arguments in the order of the declaration they see (header prototype, in-class declaration); the body
+    reads them under the definition's names.  A name that the declaration has at one position and the definition at another means the
+    body receives another argument than the one its name says (two parameters of one type swapped in the definition only compile
+    silently).  Renamed parameters (a name that occurs on one side only) are not judged."""
+    from ..compdb import REPO
+    import os
+    n = 0
+    for f in prog.functions.values():
+        rel = os.path.relpath(f["file"], REPO)
+        if rel not in files or not f.get("decl_params"):
+            continue
+        dn = [p["name"] for p in f["params"]]
+        for d in f["decl_params"]:
+            if len(d) != len(dn):
+                continue
+            n += 1
+            moved = [(i, nm) for i, nm in enumerate(dn) if nm and nm != d[i] and nm in d]
+            chk.used(f)
+            chk.check(not moved, rule, f.where,
+                      "%s: no parameter name of the declaration sits at another position in the definition%s"
+                      % (f["qname"].replace("vfps::", ""), "" if not moved else " (definition %s, declaration %s)" % (dn, d)),
+                      "%s:parameter-order:%s" % (f["qname"].replace("vfps::", ""), [nm for _, nm in moved]))
+    return n
